@@ -250,7 +250,22 @@ func c01Case(r *ev.Run, p *prng.R, batch, ci int) {
 				// the reply is in; commit a transaction touching the new monitor's tables
 				// before the client applies the initial contents
 				var ops []ref.Op
+				var tns []string
 				for tn := range mo.tables {
+					tns = append(tns, tn)
+				}
+				// ... and the tables of the monitors established earlier: their
+				// notifications are deferred during this set-up and replayed after it
+				for tn := range monitored {
+					if mo.tables[tn] == nil {
+						tns = append(tns, tn)
+					}
+				}
+				sort.Strings(tns)
+				for _, tn := range tns {
+					if mo.tables[tn] == nil && !p.Chance(2, 3) {
+						continue
+					}
 					t := s.Table(tn)
 					us := dyn.SortedUUIDs(pre.T[tn])
 					if len(us) > 0 {
